@@ -16,10 +16,12 @@ def spec(tier):
     }
     for algo, pools, oc in algos:
         for multi in (True, False):
-            if not th and not multi and algo in ("overbook", "starter"):
-                continue        # these two always build single-operator containers; the flag only reaches the executor
+            if not th and not multi and (algo == "overbook" or (algo == "starter" and pools > 1)):
+                continue        # these two build single-operator containers whatever the flag says (starter: checked on one pool)
             for wname, pp in workloads.items():
                 if not th and pools > 1 and wname != "dags" and algo != "priority-pool":
+                    continue
+                if not th and not multi and algo == "starter" and wname != "dags":
                     continue
                 for dur in ((14, 0.5, 3) if th else (12,)):
                     cfg = dict(algo=algo, pools=pools, oc=oc, multi=multi, duration=dur, pipes=pp)
